@@ -68,6 +68,18 @@ func (s *State) layoutOf(e *Expr, depth int) ([]seg, string) {
 		for _, v := range e.Args[1:] {
 			out = append(out, seg{"byte", v, 1})
 		}
+	case "call", "rcall":
+		// binary.BigEndian.AppendUintNN(b, v) == append(b, big-endian octets of v)
+		if w, ok := map[string]string{"binary.bigEndian.AppendUint16": "be16", "binary.bigEndian.AppendUint32": "be32", "binary.bigEndian.AppendUint64": "be64"}[e.S]; ok && len(e.Args) >= 2 {
+			l1, err := s.layoutOf(e.Args[len(e.Args)-2], depth+1)
+			if err != "" {
+				return nil, err
+			}
+			out = append(out, l1...)
+			out = append(out, seg{w, e.Args[len(e.Args)-1], map[string]int64{"be16": 2, "be32": 4, "be64": 8}[w]})
+			break
+		}
+		out = []seg{{"bytes", e, -1}}
 	default:
 		root, lo, hi := sliceParts(e)
 		if (root.Op == "arr" || root.Op == "makeslice") && s.isZeroOrNil(lo) {
